@@ -44,6 +44,9 @@ P = {
  "C10": ("Coq proof (quiescent-state tiling) + correspondence on into_seq_iter results",
          "Theorem c10_known_kinds: at every quiescent point of every schedule, into_seq_iter of a known-size kind yields exactly the elements from the delivered prefix on (all of them, in order, nothing duplicated or lost); after skip_to_end a suffix of the undelivered elements.",
          "Known-size kinds proved; wrapped iterator by correspondence + extracted checker (partial)."),
+ "C13": ("Coq proof (the model gives the adaptors no behaviour of their own: equality of whole configurations for every schedule; ledger theorem: nothing of a borrowed source is ever destroyed) + twin lock-step correspondence on the crate (adaptor vs. its underlying iterator under the same schedule) + lock-step correspondence with the model",
+         "Theorems c13_adaptor_transparent (for every environment, adaptor, program and schedule, the run and the end of life of the model under cloned()/copied() are equal, as whole configurations, to those of the underlying iterator: same results, indices, chunk boundaries, lengths, end and skip behaviour, same counters) and c13_source_untouched (for the known-size reference-yielding kinds, under any adaptor, no element of the source is destroyed by the machinery at any point of any schedule nor at the end of life). On the crate: every generated history is run on the adaptor and on an identical underlying reference-yielding iterator under the same schedule and the two event streams must be equal (this comparison does not go through the model); both are also compared with the model, and the extracted checkers (exactly-once, index fidelity, chunk contract, end, skip, ledger) judge the adaptor's traces.",
+         "The transparency theorem is true by the construction of the model (step never reads e_adaptor); its content is that every other theorem of the development is thereby a theorem about the adaptors, and the tie to the crate's Cloned/Copied is the twin comparison, which is differential testing. The wrapped iterator of references under cloned() is covered by the ledger checker on traces, not by a theorem (partial there)."),
  "C16": ("Coq proof (lia over the machine-word arithmetic layer) + boundary-matrix correspondence in both profiles",
          "Theorems c16_pull_arithmetic / c16_delivered_interval: for ALL b, n < 2^64, all lengths and all range bounds below 2^64, every pull of a known-size kind computes exactly [b, b+min(n,len-b)) (or the end), never panics, in both build modes. The boundary matrix of the property runs on the crate in the debug and the release harness and is compared with the model and judged by chk_C16/C02/C03.",
          "Run-level statement (chk_C16 on whole traces) is checked on implementation and model traces, not yet proved as a theorem; the wrapped iterator's reserved-counter wrap is known finding F14."),
@@ -54,7 +57,6 @@ P = {
 
 NOT_YET = {
  "C09": "progress theorems in progress; not claimed in this snapshot",
- "C13": "adaptor transparency theorem in progress; not claimed in this snapshot",
  "C14": "bounds translator and compile probes in progress; not claimed in this snapshot",
  "C15": "allocation ledger in progress; not claimed in this snapshot",
  "C18": "crash machine theorems in progress; not claimed in this snapshot",
